@@ -81,6 +81,17 @@ CbSigs ==
   \cup {Sg(K("opq"), <<SliceT("u8", "imm"), StructT("WOpt"), CbT(<<EnumT>>, EnumT), CbT(<<>>, P("u8")), StructT("Wide")>>, FALSE, P("i64"))}
   \cup {Sg(K("opq"), <<P("u64"), P("u64"), P("u64"), P("u64"), P("u64"), P("u64"), CbT(<<P("u64")>>, P("u64")), P("u64")>>, FALSE, P("u64"))}
 \* native signature of run_callback: the data pointer first, then the arguments in order
+\* traits (supported by the C backend): named, with 1..3 methods; each method crosses like a callback's run function
+TraitT(n, ms) == [k |-> "trait", n |-> n, ms |-> ms]
+TraitTypes == {TraitT("TrA", <<CbT(<<P("u8")>>, P("u8"))>>),
+               TraitT("TrB", <<CbT(<<P("u32")>>, P("u32")), CbT(<<>>, UnitT), CbT(<<StructT("Inner")>>, P("i32"))>>),
+               TraitT("TrC", <<CbT(<<P("f64"), EnumT>>, P("bool")), CbT(<<P("u64")>>, StructT("Inner"))>>)}
+TraitSigs ==
+  {Sg(K("opq"), <<P("u16"), t>>, FALSE, P("u32")) : t \in TraitTypes}
+  \cup {Sg(K("none"), <<t, P("i32")>>, FALSE, P("i32")) : t \in TraitTypes}
+  \cup {Sg(K("opq"), <<StructT("Mix"), TraitT("TrB", <<CbT(<<P("u32")>>, P("u32")), CbT(<<>>, UnitT), CbT(<<StructT("Inner")>>, P("i32"))>>),
+                        TraitT("TrA", <<CbT(<<P("u8")>>, P("u8"))>>), P("u8")>>, TRUE, UnitT)}
+  \cup {Sg(K("opqmut"), <<TraitT("TrC", <<CbT(<<P("f64"), EnumT>>, P("bool")), CbT(<<P("u64")>>, StructT("Inner"))>>), CbT(<<P("u8")>>, P("u8"))>>, FALSE, ResT(P("u8"), EnumT))}
 CbShape(c) == [ret |-> Shape(c.r), params |-> <<PtrS>> \o [i \in 1..Len(c.ps) |-> Shape(c.ps[i])]]
 
 VARIABLES sig, stage
@@ -89,6 +100,7 @@ CONSTANTS Mode, MaxParams
 Init == IF Mode = "cover" THEN sig \in CoverSigs /\ stage = "done"
         ELSE IF Mode = "optenc" THEN sig \in OptEncSigs /\ stage = "done"
         ELSE IF Mode = "cb" THEN sig \in CbSigs /\ stage = "done"
+        ELSE IF Mode = "trait" THEN sig \in TraitSigs /\ stage = "done"
         ELSE sig = Sg(K("none"), <<>>, FALSE, UnitT) /\ stage = "self"
 PickSelf == stage = "self" /\ \E sf \in SelfKinds : sig' = [sig EXCEPT !.self = sf] /\ stage' = "params"
 \* random combinations may also place a callback anywhere in the parameter list
@@ -127,7 +139,12 @@ SA(sh) == IF sh.s = "void" THEN [size |-> 0, align |-> 1] ELSE [size |-> Size(sh
 Emit == Done => LET ss == SigShape(sig.self, sig.params, sig.write, sig.ret) IN
                 PrintT(<<"CASE", ToJson([sig |-> sig, shape |-> ss,
                                          lay |-> [ret |-> SA(ss.ret), params |-> [i \in 1..Len(ss.params) |-> SA(ss.params[i])]],
-                                         cbs |-> [i \in {j \in 1..Len(sig.params) : sig.params[j].k = "cb"} |-> CbShape(sig.params[i])]])>>)
+                                         cbs |-> [i \in {j \in 1..Len(sig.params) : sig.params[j].k = "cb"} |-> CbShape(sig.params[i])],
+                                         traits |-> [i \in {j \in 1..Len(sig.params) : sig.params[j].k = "trait"} |->
+                                                       [q \in 1..Len(sig.params[i].ms) |-> CbShape(sig.params[i].ms[q])]]])>>)
+\* a trait object is a data pointer followed by its vtable; the vtable starts with destructor, SIZE, ALIGNMENT
+TraitIsDataPlusVtable == \A t \in TraitTypes : LET sh == Shape(t) IN
+   sh.fields[1] = PtrS /\ Len(sh.fields[2].fields) = 3 + Len(t.ms) /\ SubSeq(sh.fields[2].fields, 1, 3) = <<PtrS, SizeT(FALSE), SizeT(FALSE)>>
 \* a callback object is three pointers on every target
 CbIsThreePointers == \A c \in CbTypes : Shape(c) = StructS(<<PtrS, PtrS, PtrS>>) /\ CbShape(c).params[1] = PtrS
 EmitDefs == (Mode = "cover" /\ sig = Sg(K("opq"), <<>>, FALSE, UnitT)) =>
